@@ -118,6 +118,88 @@ def copy_and_swap(facts, fn, q, rp, rec):
     return False
 
 
+def block_assignment_sources(facts, asg):
+    """{member of *this: path its new value comes from} for CdnsBlock::operator=(rhs).  Direct stores `this->m = rhs.m`, and
+    the copy-aside form: a local CdnsBlock that receives the source's members (through its constructor's initialisers or
+    by assignment) and is then exchanged with *this by a helper that swaps members pairwise."""
+    rp = rhs_param(asg)
+    assigned = {}
+    for lp, rhs, node in consumption.assignment_targets(ir.stmts(asg["body"])):
+        if lp and lp[0] == "this" and len(lp) == 2:
+            assigned[lp[1]] = path(unwrap_all_casts(rhs))
+    # locals of the class itself
+    for d in ir.walk(asg["body"]):
+        if d.get("k") != "Decl":
+            continue
+        for v in d.get("vars", []):
+            if (v.get("t") or "").replace("const ", "") != "CDNS::CdnsBlock" or "id" not in v:
+                continue
+            tname = "l:%s#%s" % (v["n"], v["id"])
+            T = {}
+            init = unwrap(v.get("init")) if v.get("init") is not None else None
+            if isinstance(init, dict) and init.get("k") == "Construct":
+                if init.get("copymove") or (len(init.get("args", [])) == 1 and path(init["args"][0]) == (rp,)):
+                    continue        # a whole copy goes through the copy constructor, which is this operator again
+                cal = init.get("callee") or {}
+                for cf in facts.functions.values():
+                    if cf.get("cls") == "CDNS::CdnsBlock" and cf.get("ctor") and cf["sig"] == cal.get("sig", []):
+                        pidx = {p["id"]: i for i, p in enumerate(cf.get("params", []))}
+                        for ini in cf.get("inits", []) or []:
+                            u = unwrap_all_casts(ini.get("init")) if ini.get("init") is not None else None
+                            while isinstance(u, dict) and u.get("k") == "Construct" and len(u.get("args", [])) == 1:
+                                u = unwrap_all_casts(u["args"][0])
+                            if ini.get("member") and isinstance(u, dict) and u.get("k") == "Ref" and u.get("d") == "param" and u.get("id") in pidx:
+                                a = init["args"][pidx[u["id"]]] if pidx[u["id"]] < len(init.get("args", [])) else None
+                                if a is not None and path(a) is not None:
+                                    T[ini["member"]] = path(a)
+            for lp, rhs, node in consumption.assignment_targets(ir.stmts(asg["body"])):
+                if lp and lp[0] == tname and len(lp) == 2:
+                    T[lp[1]] = path(unwrap_all_casts(rhs))
+            # exchanged with *this
+            for c in ir.calls_in(asg["body"]):
+                cal = c.get("callee") or {}
+                if c.get("k") == "MCall" and cal.get("cls") == "CDNS::CdnsBlock" and len(c.get("args", [])) == 1 and path(c["args"][0]) == (tname,) \
+                        and path(c.get("recv")) in (("this",), None):
+                    for h in facts.fns(cal.get("qn")):
+                        if h.get("cls") != "CDNS::CdnsBlock" or h["sig"] != cal.get("sig") or h.get("body") is None:
+                            continue
+                        other = "p:%s" % h["params"][0]["n"]
+                        for x in ir.calls_in(h["body"]):
+                            if callee_name(x) != "swap":
+                                continue
+                            if x.get("k") == "MCall" and len(x.get("args", [])) == 1:
+                                a, b = path(x.get("recv")), path(x["args"][0])
+                            elif len(x.get("args", [])) == 2:
+                                a, b = path(x["args"][0]), path(x["args"][1])
+                            else:
+                                continue
+                            if a and b and len(a) == 2 and len(b) == 2 and a[1] == b[1] and {a[0], b[0]} == {"this", other} and a[1] in T:
+                                assigned[a[1]] = T[a[1]]
+    return assigned, rp
+
+
+def check_block_assignment(run, rule, only=None):
+    facts = run.facts
+    blk = facts.record("CDNS::CdnsBlock", rule=rule)
+    asg = [f for f in facts.fns("CDNS::CdnsBlock::operator=") if f["sig"] == ["CDNS::CdnsBlock &"]]
+    if len(asg) != 1:
+        raise AnalysisBroken(rule, "CdnsBlock::operator=(CdnsBlock&) not found")
+    asg = asg[0]
+    assigned, rp = block_assignment_sources(facts, asg)
+    n = 0
+    for f in blk["fields"]:
+        if only and f["n"] not in only:
+            continue
+        n += 1
+        src = assigned.get(f["n"])
+        ok = src == (rp, f["n"])
+        run.ob(rule, "CdnsBlock::operator=:%s" % f["n"], ok, asg, asg["line"],
+               "member copied from the same member of the source" if ok else
+               ("member %s is not assigned in CdnsBlock::operator=: the copy keeps its old %s" % (f["n"], f["n"]) if src is None else
+                "member %s is assigned from %s" % (f["n"], path_str(src))))
+    run.floor(rule, 15 if not only else len(only), "data members of CdnsBlock")
+
+
 def check(run):
     facts = run.facts
     borrow = borrowing_records(facts)
@@ -239,24 +321,7 @@ def check(run):
     run.info["borrowing_types"] = sorted(short(b) for b in borrow if b in clos)
 
     # ---------------- R19.2 member-complete assignment
-    blk = facts.record("CDNS::CdnsBlock", rule="R19.2")
-    asg = [f for f in facts.fns("CDNS::CdnsBlock::operator=") if f["sig"] == ["CDNS::CdnsBlock &"]]
-    if len(asg) != 1:
-        raise AnalysisBroken("R19.2", "CdnsBlock::operator=(CdnsBlock&) not found")
-    asg = asg[0]
-    rp = rhs_param(asg)
-    assigned = {}
-    for lp, rhs, node in consumption.assignment_targets(ir.stmts(asg["body"])):
-        if lp and lp[0] == "this" and len(lp) == 2:
-            assigned[lp[1]] = path(unwrap_all_casts(rhs))
-    for f in blk["fields"]:
-        src = assigned.get(f["n"])
-        ok = src == (rp, f["n"])
-        run.ob("R19.2", "CdnsBlock::operator=:%s" % f["n"], ok, asg, asg["line"],
-               "member copied from the same member of the source" if ok else
-               ("member %s is not assigned in CdnsBlock::operator=: the copy keeps its old %s" % (f["n"], f["n"]) if src is None else
-                "member %s is assigned from %s" % (f["n"], path_str(src))))
-    run.floor("R19.2", 15, "data members of CdnsBlock")
+    check_block_assignment(run, "R19.2")
     rd = facts.record("CDNS::CdnsBlockRead", rule="R19.2")
     rasg = [f for f in facts.fns("CDNS::CdnsBlockRead::operator=") if f["sig"] == ["CDNS::CdnsBlockRead &"]]
     if len(rasg) != 1:
